@@ -22,22 +22,23 @@ func diag9(c spec.V4Class) bool {
 
 // CheckC10 — Modified / not-defined resolution.
 func CheckC10(r *Report) {
-	ColdStart(r)
 	if err := spec.V4Init(); err != nil {
 		r.Note("MODEL ERROR: %v", err)
 		r.NotExhaustive("model start-up checks failed; nothing decided")
 		return
 	}
 	thorough := r.Tier == "thorough"
-	r.Rule = "E3 lifting: every effective class x every alternative representation within the deviation bound (deviation = one overridable metric represented through its Modified twin with an arbitrary base value, one default written as X, or one supplemental metric defined); oracle = exact model on effective values (EnvironmentalScore / v4 Score) and on base values (v3 BaseScore/TemporalScore), which is stronger than the differential comparison with the canonical representative; distinct = (class, representation) pairs"
-	each30 := func(a spec.Assignment, o *CVSS30T) (string, string, string) { return v3CheckObj(I30, a, o) }
-	each31 := func(a spec.Assignment, o *CVSS31T) (string, string, string) { return v3CheckObj(I31, a, o) }
+	r.Rule = "E3 lifting, differential: the implementation's own scores of the canonical representative of every effective class (Modified = X, base = effective value) are tabulated first; then every alternative representation within the deviation bound (deviation = one overridable metric represented through its Modified twin with an arbitrary base value, one default written as X, or one supplemental metric defined) must score exactly like the canonical representative of the same effective values (v3 EnvironmentalScore, v4 Score), v3 BaseScore/TemporalScore must equal those of the canonical object with the same base and temporal values, and X must score like the specification's default (v3: E:X=H, RL:X=U, RC:X=C, CR/IR/AR:X=M; v4: E:X=A, CR/IR/AR:X=H). The oracle is independent of the C03/C04 models. distinct = (class, representation) pairs"
+	// bound 0: canonical tables (and the defaults inside them)
+	t30 := buildV3Table(r, I30)
+	t31 := buildV3Table(r, I31)
+	v3Defaults(r, I30, t30)
+	v3Defaults(r, I31, t31)
+	t4 := make(V4Table, spec.V4NumClasses)
+	SweepV4(r, "C10", t4, false)
+	each30 := func(a spec.Assignment, o *CVSS30T) (string, string, string) { return v3CheckDiff(I30, t30, a, o) }
+	each31 := func(a spec.Assignment, o *CVSS31T) (string, string, string) { return v3CheckDiff(I31, t31, a, o) }
 	devs := v3Devs()
-	// bound 0: the canonical representatives themselves (all Modified metrics X), so that a shortcut taken only
-	// when nothing is overridden is compared with the same oracle as its explicit-copy twins
-	sweepV3(r, I30)
-	sweepV3(r, I31)
-	SweepV4(r, "C10", nil, true)
 	// bound 1
 	for _, d := range devs {
 		sweepV3Lift(r, I31, []v3Dev{d}, !thorough, each31)
@@ -67,25 +68,25 @@ func CheckC10(r *Report) {
 	// v4
 	v4b := "v4 bound 1 on the CR=IR=AR, AC~AT sub-lattice of classes (839,808 classes x 56 deviations)"
 	if thorough {
-		sweepV4Lift(r, 1, nil, nil)
+		sweepV4Lift(r, 1, nil, t4)
 		sweepV4Lift(r, 2, func(c spec.V4Class) bool {
 			return diag9(c) && c[spec.V4E] == c[spec.V4CR]%3 && c[spec.V4AC] == c[spec.V4AT] && c[spec.V4PR] == c[spec.V4UI]
-		}, nil)
+		}, t4)
 		v4b = "v4 bound 1 on all 15,116,544 classes; bound 2 (all pairs of deviations) on a 62,208-class sub-lattice"
 	} else {
-		sweepV4Lift(r, 1, func(c spec.V4Class) bool { return diag9(c) && c[spec.V4AC] == c[spec.V4AT] }, nil)
+		sweepV4Lift(r, 1, func(c spec.V4Class) bool { return diag9(c) && c[spec.V4AC] == c[spec.V4AT] }, t4)
 	}
 	// v4: everything overridden at once + all supplemental metrics defined
-	sweepV4AllOverridden(r, thorough)
+	sweepV4AllOverridden(r, thorough, t4)
 	r.Bound = v3b + "; all-overridden patterns (base = effective rotated by 0,1,2); " + v4b + "; v4 all-overridden + all-supplemental patterns on all classes"
 	r.Exhaustive = false
 	r.Distinct.Store(r.States.Load())
 	r.Evaluations.Store(r.Transitions.Load())
 	r.Sample(map[string]any{"example_deviation": v4Devs()[5].String(), "class": spec.V4ClassFromIndex(1234567).String()})
-	r.Assumptions = []string{"representations with more deviations than the bound are covered only by the all-overridden patterns", "exact models of C03/C04 (mc/spec)"}
+	r.Assumptions = []string{"representations with more deviations than the bound are covered only by the all-overridden patterns", "the canonical representatives themselves are tied to the specification by C03/C04"}
 }
 
-func sweepV4AllOverridden(r *Report, thorough bool) {
+func sweepV4AllOverridden(r *Report, thorough bool, table V4Table) {
 	n := spec.V4NumClasses
 	chunk := 1 << 12
 	nch := (n + chunk - 1) / chunk
@@ -125,12 +126,14 @@ func sweepV4AllOverridden(r *Report, thorough bool) {
 					}
 				}
 				cnt++
-				key, exp, obs, o := v4CheckRepr(c, &rp)
+				key, exp, obs, o := v4CheckRepr(c, &rp, table)
 				if key != "" {
 					cc, rr := c, rp
+					cv := CanonRepr(c)
+					co, _ := cv.Object()
 					r.Violation(Case{Kind: "v4-repr", Key: key, Expected: exp, Observed: obs,
-						Args: map[string]any{"index": idx, "class": c.String(), "vector": o.Vector()}},
-						func() bool { k2, _, _, _ := v4CheckRepr(cc, &rr); return k2 != "" })
+						Args: map[string]any{"index": idx, "class": c.String(), "vector": o.Vector(), "canonical": co.Vector(), "differential": table != nil}},
+						func() bool { k2, _, _, _ := v4CheckRepr(cc, &rr, table); return k2 != "" })
 				}
 			}
 		}
@@ -142,3 +145,161 @@ func sweepV4AllOverridden(r *Report, thorough bool) {
 
 var _ = fmt.Sprint
 var _ gocvss40.CVSS40
+
+// ---- v3 differential machinery ----
+
+// v3Table: the implementation's BaseScore/TemporalScore/EnvironmentalScore (tenths) of the canonical object of
+// every class index (mixed radix over metrics 0..13, metric 0 fastest); v4Bad when malformed.
+type v3Table [][3]int16
+
+var v3Strides = func() [14]int {
+	var st [14]int
+	mul := 1
+	for i := 0; i < 14; i++ {
+		st[i] = mul
+		mul *= len(spec.V31.Metrics[i].Values)
+	}
+	return st
+}()
+
+func buildV3Table[T comparable, P Object[T]](r *Report, im *Impl[T, P]) v3Table {
+	ver := im.Ver
+	t := make(v3Table, 16588800)
+	dims := v3ClassDims(ver)
+	Iterate(im, dims, v3bg(ver), 16, func(idx int, a spec.Assignment, o *T) {
+		for k := 0; k < 3; k++ {
+			var s float64
+			if p := Safely(func() { s = im.Scores[k].F(o) }); p != nil {
+				t[idx][k] = v4Bad
+				continue
+			}
+			if q, ok := score10(s); ok {
+				t[idx][k] = int16(q)
+			} else {
+				t[idx][k] = v4Bad
+			}
+		}
+	}, iterBad(r, im, dims, v3bg(ver), "v3-score"), r.TooMany)
+	r.States.Add(16588800)
+	r.Transitions.Add(16588800 * 3)
+	return t
+}
+
+// v3Defaults: inside the canonical table, X must score like the specification's default value.
+func v3Defaults[T comparable, P Object[T]](r *Report, im *Impl[T, P], t v3Table) {
+	ver := im.Ver
+	// metric index -> value index of the default that X stands for, and which of the three scores it concerns
+	type dflt struct {
+		m, val int
+		scores []int
+	}
+	ds := []dflt{{8, 1, []int{1, 2}}, {9, 1, []int{1, 2}}, {10, 1, []int{1, 2}}, {11, 2, []int{2}}, {12, 2, []int{2}}, {13, 2, []int{2}}}
+	n := len(t)
+	Parallel((n+65535)/65536, 16, func(ci int) {
+		lo, hi := ci*65536, (ci+1)*65536
+		if hi > n {
+			hi = n
+		}
+		for idx := lo; idx < hi; idx++ {
+			for _, d := range ds {
+				rad := len(ver.Metrics[d.m].Values)
+				if (idx/v3Strides[d.m])%rad != 0 {
+					continue // this metric is not X in this class
+				}
+				idx2 := idx + d.val*v3Strides[d.m]
+				for _, k := range d.scores {
+					if t[idx][k] != t[idx2][k] && t[idx][k] != v4Bad && t[idx2][k] != v4Bad {
+						m := ver.Metrics[d.m]
+						r.Violation(Case{Kind: "v3-default", Key: "v" + ver.Name + "/" + im.Scores[k].Name + "/" + m.Abv + ":X-does-not-score-like-" + m.Values[d.val],
+							Expected: fmt.Sprintf("%s:X scores like %s:%s (%.1f)", m.Abv, m.Abv, m.Values[d.val], float64(t[idx2][k])/10), Observed: fmt.Sprintf("%.1f", float64(t[idx][k])/10),
+							Args:     map[string]any{"version": ver.Name, "index": idx, "metric": m.Abv}}, nil)
+					}
+				}
+			}
+		}
+		r.Transitions.Add(int64(hi-lo) * 9)
+	})
+}
+
+// v3CheckDiff: differential oracle of C10 for one (deviated) object.
+func v3CheckDiff[T comparable, P Object[T]](im *Impl[T, P], t v3Table, a spec.Assignment, o *T) (key, expected, observed string) {
+	tag := "v" + im.Ver.Name + "/"
+	c := v3ClassOf(a)
+	eff := [14]int8{c.AV, c.AC, c.PR, c.UI, c.S, c.C, c.I, c.A, c.E, c.RL, c.RC, c.CR, c.IR, c.AR}
+	idxEff, idxBase := 0, 0
+	for i := 0; i < 14; i++ {
+		idxEff += int(eff[i]) * v3Strides[i]
+		if i < 11 {
+			idxBase += int(a[i]) * v3Strides[i]
+		}
+	}
+	var res [3]float64
+	if p := Safely(func() {
+		for i := range res {
+			res[i] = im.Scores[i].F(o)
+		}
+	}); p != nil {
+		return tag + "score/panic", "no panic", fmt.Sprint(p)
+	}
+	cmp := func(k int, idx int, what string) (string, string, string) {
+		want := t[idx][k]
+		if want == v4Bad {
+			return "", "", ""
+		}
+		got, ok := score10(res[k])
+		if !ok || int16(got) != want {
+			return tag + im.Scores[k].Name + "/depends-on-representation", fmt.Sprintf("%.1f, the %s of the canonical object with the same %s", float64(want)/10, im.Scores[k].Name, what), fmt.Sprintf("%v", res[k])
+		}
+		return "", "", ""
+	}
+	if k, e, ob := cmp(0, idxBase, "base values"); k != "" {
+		return k, e, ob
+	}
+	if k, e, ob := cmp(1, idxBase, "base and temporal values"); k != "" {
+		return k, e, ob
+	}
+	return cmp(2, idxEff, "effective values")
+}
+
+func v3DefaultReplay[T comparable, P Object[T]](im *Impl[T, P], idx int, metric string) string {
+	ver := im.Ver
+	a := v3bg(ver)
+	x := idx
+	for i := 0; i < 14; i++ {
+		rad := len(ver.Metrics[i].Values)
+		a[i] = int8(x % rad)
+		x /= rad
+	}
+	mi := ver.Index(metric)
+	if mi < 8 || mi > 13 {
+		return "bad replay case"
+	}
+	dv := 1
+	if mi >= 11 {
+		dv = 2
+	}
+	b := a.Clone()
+	b[mi] = int8(dv)
+	s := NewOS(im, NewReport("x", "quick", 0))
+	oa, _ := s.Build(a)
+	ob, _ := s.Build(b)
+	for k := 1; k < 3; k++ {
+		if mi >= 11 && k != 2 {
+			continue
+		}
+		if sa, sb := im.Scores[k].F(&oa), im.Scores[k].F(&ob); sa != sb {
+			return fmt.Sprintf("%s: %s scores %v, %s scores %v", im.Scores[k].Name, ver.Canon(a), sa, ver.Canon(b), sb)
+		}
+	}
+	return ""
+}
+
+func init() {
+	replayers["v3-default"] = func(c *Case) string {
+		idx := int(c.Args["index"].(float64))
+		if argStr(c, "version") == "3.0" {
+			return v3DefaultReplay(I30, idx, argStr(c, "metric"))
+		}
+		return v3DefaultReplay(I31, idx, argStr(c, "metric"))
+	}
+}
